@@ -215,7 +215,7 @@ MUTANTS = [
  dict(id="C20", name="special_case_shift_wrong", edits=[(MM, "        rtosc_message(buf, 1024, addr.c_str(), \"i\", 0x7f&(x>>7));", "        rtosc_message(buf, 1024, addr.c_str(), \"i\", 0x7f&(x>>5));")]),
  dict(id="C20", name="int_ports_driven_with_float", edits=[(MM, "    char type = 'f';\n    if(strstr(port.name, \":i\"))\n        type = 'i';\n    std::function<void(int16_t, MidiMapperStorage::write_cb cb)> tmp =", "    char type = 'f';\n    std::function<void(int16_t, MidiMapperStorage::write_cb cb)> tmp =")]),
  dict(id="C20", name="storage_matches_first_mapping_only_by_index", edits=[(MM, "        if(std::get<0>(mapping[i]) == ID)\n        {\n            bool coarse = std::get<1>(mapping[i]);\n            int  ind    = std::get<2>(mapping[i]);", "        if(std::get<0>(mapping[i]) == ID)\n        {\n            bool coarse = std::get<1>(mapping[i]);\n            int  ind    = i < values.size() ? i : std::get<2>(mapping[i]);")]),
- dict(id="C20", name="watch_not_consumed", edits=[(MM, "        watchSize--;\n        pending.insert(ID);", "        pending.insert(ID);")]),
+ dict(id="C20", name="watch_not_consumed", edits=[(MM, "        watchSize--;\n        pending.insert(ID);", "        pending.insert(ID);")], expect=0),   # benign since e3b2e79 (was caught through the pending leak): surplus reports are answered with midi-unuse-CC
 
  dict(id="C20", name="controller_id_ignores_channel", edits=[(MM, "    int ID = (isNrpn<<18) + (((chan-1)&0x0f)<<14) + par;", "    int ID = (isNrpn<<18) + par;")]),
  dict(id="C20", name="controller_id_ignores_nrpn_flag", edits=[(MM, "    int ID = (isNrpn<<18) + (((chan-1)&0x0f)<<14) + par;", "    int ID = (((chan-1)&0x0f)<<14) + par;")]),
@@ -261,4 +261,8 @@ MUTANTS = [
  dict(id="C15", name="merged_event_in_a_buffer_of_the_new_events_size", edits=[(UH, "            const size_t N = rtosc_amessage(NULL, 0, msg, types, args);\n", "            const size_t N = rtosc_message_length(msg, -1);\n")]),
  dict(id="C14", name="bound_narrowed_before_comparison", edits=[(PS, "    if(prop[\"max\"] && var > convert(prop[\"max\"])) \\\n", "    if(prop[\"max\"] && var > (decltype(var)) convert(prop[\"max\"])) \\\n")]),
  dict(id="C13", name="root_self_enabler_ignored", edits=[(SF, "    self_edge(ports, \"/\");\n", "")]),
+ dict(id="C20", name="snapshot_pops_the_oldest_pending", edits=[(MM, "            for(int i=0; i<nstorage->mapping.size(); ++i)\n                midi.pending.remove(std::get<0>(nstorage->mapping[i]));", "            midi.pending.pop();")]),
+ dict(id="C20", name="clear_keeps_the_watches", edits=[(MM, "    for(size_t i=0; i<learnQueue.size(); ++i) {\n        rtosc_message(buf, 1024, \"/midi-learn/midi-remove-watch\",\"\");\n        rt_cb(buf);\n    }", "")], expect=0),   # benign since e3b2e79: a report nobody waits for is answered with midi-unuse-CC, the stale watch only costs one wasted report
+ dict(id="C20", name="report_without_request_stays_pending", edits=[(MM, "        rtosc_message(buf, 64, \"/midi-learn/midi-unuse-CC\", \"i\", ID);\n        rt_cb(buf);\n", "")]),
+ dict(id="C20", name="late_report_binds_again", edits=[(MM, "            if(std::get<0>(storage->mapping[i]) == ID) {", "            if(false && std::get<0>(storage->mapping[i]) == ID) {")], expect=0),
 ]
